@@ -742,6 +742,12 @@ def np_meshgrid(*xi, indexing="xy", sparse=False, copy=True):
 @reg("numpy.stack")
 @wants_interp
 def np_stack(interp, arrays, axis=0, **kw):
+    if type(arrays).__name__ == "SList" and not isinstance(arrays.n, int):
+        if axis != 0:
+            raise Unsupported("stack of a symbolic-length list along axis != 0")
+        get = arrays.fn
+        probe = A.from_nested(get(Sym(z3.Int(V.fresh_name("stackprobe")))))
+        return SArr((arrays.n,) + tuple(probe.shape), lambda idx: A.from_nested(get(idx[0])).at(tuple(idx[1:])), probe.dtype)
     if isinstance(arrays, X.RepList):
         if axis != 0:
             raise Unsupported("stack of a symbolically repeated list along axis != 0")
@@ -864,7 +870,14 @@ REG["numpy.exp"] = _map_scalar_or_arr(_exp, "real")
 REG["numpy.pi"] = REG["math.pi"]
 REG["numpy.inf"] = REG["math.inf"]
 REG["numpy.newaxis"] = None
-REG["numpy.ndarray"] = TypeTag("ndarray", lambda x: isinstance(x, SArr))
+def _is_ndarray(x):
+    from .imgtok import ImgTok
+    return isinstance(x, (SArr, ImgTok))
+
+
+REG["numpy.ndarray"] = TypeTag("ndarray", _is_ndarray)
+for _nm, _op in (("greater_equal", ">="), ("less_equal", "<="), ("greater", ">"), ("less", "<")):
+    REG["numpy." + _nm] = wants_interp((lambda _op: lambda interp, a, b, **kw: interp.cmp(_op, a, b))(_op))
 REG["numpy.number"] = TypeTag("number", lambda x: is_num(x))
 REG["numpy.integer"] = TypeTag("integer", _is_intlike)
 REG["numpy.floating"] = TypeTag("floating", _is_floatlike)
@@ -970,6 +983,12 @@ REG["numpy.prod"] = lambda a, axis=None, dtype=None, **kw: _reduce_concrete(a, "
 REG["numpy.max"] = lambda a, axis=None, **kw: _reduce_concrete(a, "max", axis)
 REG["numpy.min"] = lambda a, axis=None, **kw: _reduce_concrete(a, "min", axis)
 REG["numpy.amax"] = REG["numpy.max"]
+REG["numpy.percentile"] = lambda a, q, axis=None, **kw: V.fresh("percentile", "real")
+REG["numpy.nanmin"] = REG["numpy.min"]
+REG["numpy.nanmax"] = REG["numpy.max"]
+REG["numpy.nan"] = Sym(z3.Real("NAN"))
+REG["numbers.Integral"] = TypeTag("Integral", _is_intlike)
+REG["numbers.Number"] = TypeTag("Number", lambda x: is_num(x))
 REG["numpy.amin"] = REG["numpy.min"]
 
 
@@ -1345,13 +1364,34 @@ def _getattr_hook(interp, obj, name):
             fr = interp.loop_stack[-1]
 
             def _append(v):
-                fr.appends.setdefault(id(obj), (obj, []))[1].append(v)
+                fr.appends.setdefault(id(obj), (obj, []))[1].append(("one", v))
                 fr.written.add(id(obj))
             return _append
+        if name == "extend" and interp.loop_stack and id(obj) in interp.loop_stack[-1].outer_lists:
+            fr = interp.loop_stack[-1]
+
+            def _extend(it):
+                L_ = _loops()
+                if isinstance(it, X.RepList):
+                    blk = L_.SList(it.n, (lambda e: lambda q: e)(it.elem))
+                elif isinstance(it, L_.SList):
+                    blk = it
+                else:
+                    blk = list(interp.iterate(it))
+                fr.appends.setdefault(id(obj), (obj, []))[1].append(("block", blk))
+                fr.written.add(id(obj))
+            return _extend
         if name == "append":
             return obj.append
         if name == "extend":
-            return lambda it: obj.extend(list(interp.iterate(it)))
+            def _ext(it):
+                L_ = _loops()
+                if isinstance(it, X.RepList) or (isinstance(it, L_.SList) and not isinstance(it.n, int)):
+                    blk = L_.SList(it.n, (lambda e: lambda q: e)(it.elem)) if isinstance(it, X.RepList) else it
+                    interp.rebind(obj, L_.SList.concat(list(obj), blk), interp.current_env)
+                    return None
+                obj.extend(list(interp.iterate(it)))
+            return _ext
         if name in ("pop", "insert", "index", "copy", "reverse", "clear", "count", "remove", "sort"):
             return getattr(obj, name)
     if isinstance(obj, tuple):
@@ -1398,6 +1438,13 @@ def _getattr_hook(interp, obj, name):
             return getattr(obj, name)
     if isinstance(obj, X.GenV) and name == "__next__":
         return lambda: B["next"](interp, obj)
+    if isinstance(obj, (X.Closure, X.RepoFunc)):
+        if name == "__name__":
+            return obj.name if isinstance(obj, X.Closure) else obj.node.name
+        if name in ("__module__", "__qualname__", "__doc__"):
+            return ""
+    if callable(obj) and name == "__name__" and hasattr(obj, "__name__"):
+        return obj.__name__
     if isinstance(obj, DType):
         if name == "kind":
             return {"real": "f", "int": "i", "bool": "b", "complex": "c"}[obj.kind]
@@ -1596,6 +1643,70 @@ for _m in ("scipy.ndimage", "acryo._typed_scipy"):
     REG[_m + ".map_coordinates"] = _ndi_map_coordinates
 REG["scipy.ndimage.spline_filter"] = lambda input, order=3, output=None, mode="mirror": A.from_nested(input)
 REG["acryo._typed_scipy.spline_filter"] = REG["scipy.ndimage.spline_filter"]
+
+# dask.delayed: a delayed call is kept as a record and forced where dask would compute it ----------------------
+class DelayedFn:
+    _pyvc_native = True
+
+    def __init__(self, func):
+        self.func = func
+
+    def __call__(self, *args, **kwargs):
+        return DelayedCall(self.func, args, kwargs)
+
+
+class DelayedCall:
+    _pyvc_native = True
+
+    def __init__(self, func, args, kwargs):
+        self.func, self.args, self.kwargs = func, args, kwargs
+
+    def _mentions(self, L):
+        return _loops().mentions((self.args, self.kwargs), L)
+
+    def _subst(self, L, j):
+        sv = _loops().subst_value
+        return DelayedCall(self.func, sv(self.args, L, j), sv(self.kwargs, L, j))
+
+
+def force(interp, x):
+    """compute a delayed value (deep over tuples / lists / symbolic lists)"""
+    L_ = _loops()
+    if isinstance(x, DelayedCall):
+        return interp.call(x.func, [force(interp, a) for a in x.args], {k: force(interp, v) for k, v in x.kwargs.items()})
+    if isinstance(x, tuple):
+        return tuple(force(interp, v) for v in x)
+    if isinstance(x, list):
+        return [force(interp, v) for v in x]
+    if isinstance(x, L_.SList) and not isinstance(x.n, int):
+        si = L_.siter(x)
+        return L_.summarize(interp, si[0], si[1], lambda el, Lc: force(interp, el), interp.current_env, collect_value=True)
+    return x
+
+
+REG["dask.delayed"] = lambda f=None, **kw: DelayedFn(f)
+REG["dask.delayed.delayed"] = REG["dask.delayed"]
+REG["dask.compute"] = wants_interp(lambda interp, *a, **k: tuple(force(interp, x) for x in a))
+REG["dask.is_dask_collection"] = lambda x: isinstance(x, (SArr, DelayedCall))
+
+
+@wants_interp
+def _from_delayed(interp, value, shape, dtype=None, meta=None, name=None):
+    """da.from_delayed(task, shape): dask does NOT check the declared shape; the array it reports has `shape` while
+    computing it yields whatever the task returns -> obligation `declared shape == actual shape` (C10)"""
+    v = force(interp, value)
+    arr = A.from_nested(v)
+    shape = tuple(X._unfrac(s_) for s_ in shape)
+    if len(shape) != arr.ndim:
+        interp.path.oblige(f"safety.declared_shape@L{interp.lineno}", False, {"kind": "safety", "line": interp.lineno})
+    else:
+        interp.path.oblige(f"safety.declared_shape@L{interp.lineno}",
+                           V.sand(*[V.compare("==", a, b) for a, b in zip(shape, arr.shape)]) if shape else True,
+                           {"kind": "safety", "line": interp.lineno})
+    return arr
+
+
+REG["dask.array.from_delayed"] = _from_delayed
 
 # dask.array ------------------------------------------------------------------
 REG["dask.array.pad"] = np_pad
